@@ -1243,6 +1243,7 @@ def run_domains(ctx, pid, groups):
     os.environ["VF_SCHED_ROOT"] = str(temp_root())  # children put their scratch directories below it
     stats = [dict() for _ in groups]
     ntasks = sum(len(t) for _, t, _ in groups)
+    real_classes, mirror_fails = set(), []
     with mp.get_context("spawn").Pool(min(nprocs(), max(1, ntasks))) as pool:
         # tasks with a split depth are first cut into sub-trees (by a worker), every sub-tree is one work item
         splitting, working = [], []
@@ -1285,7 +1286,11 @@ def run_domains(ctx, pid, groups):
             for kk, vv in out["stats"].items():
                 st[kk] = st.get(kk, 0) + vv
             for f in out["fails"]:
-                ctx.fail(f["class"], f["what"], f["case"], domain=dom)
+                if out["opts"]["loop"] == "real":
+                    real_classes.add(f["class"])
+                    ctx.fail(f["class"], f["what"], f["case"], domain=dom)
+                else:
+                    mirror_fails.append((dom, f))
             if os.environ.get("VF_SCHED_VERBOSE"):
                 print(f"  [{time.time() - ctx.t0:6.1f}s] {len(out['keys']):6d} histories {out['opts']['spec']} loop={out['opts']['loop']} vis={out['opts']['vis']} k={out['opts']['k']} fail={out['opts']['fail']} multi={out['opts']['multi']} fixed={out['fixed']}", flush=True)
             if out["stats"].get("_unlisted"):
@@ -1293,6 +1298,22 @@ def run_domains(ctx, pid, groups):
                 dom.failed += out["stats"]["_unlisted"]
             if out["fidelity"]:
                 raise CheckerError(f"harness fidelity: synthesised results and real job runs give different histories: {out['fidelity'][0]}")
+    # The real loops are the authority for the property; the mirror (the harness' own re-statement of the loop over
+    # the decision functions, same script space) is a function-level view.  A mirror failure is a property failure
+    # only if the real loop shows the same class of failure; otherwise the loop compensates for what the decision
+    # function returns (e.g. a limit enforced at hand-out) and the observation is recorded as a note.
+    demoted = {}
+    for dom, f in mirror_fails:
+        if f["class"] in real_classes:
+            ctx.fail(f["class"], f["what"], f["case"], domain=dom)
+        else:
+            d = demoted.setdefault(f["class"], {"n": 0, "first": f})
+            d["n"] += 1
+    for klass, d in demoted.items():
+        ctx.note(
+            f"function-level only ({d['n']} histories, class {klass}): the harness' mirror of the loop fails but the real loop does not on the same "
+            f"script space -- not a violation of {pid}. First: {d['first']['what'][:300]} | opts={d['first']['case']['opts']} choices={d['first']['case']['choices']}"
+        )
     for st in stats:
         st.pop("_unlisted", None)
     return stats
